@@ -34,6 +34,10 @@ FIXED = [
     "fixed: property=C06 aae6e36 a comparison inlined into an entity's condition was removed although a later statement also read it (`Signal f = x > 3; lamp.enable = f; Signal g = f + 1;` left g without a source)",
     "fixed: property=C10 9b11727 optimiser replacements were not applied to wire-merge sources, latch writes, multi-condition rows, inlined bundle conditions and placement coordinates",
     "fixed: property=C10 72073fa with optimisation on, a folded anonymous constant consumed by a copy-count decider output, a memory write or a wire merge was inlined as an integer and produced nothing",
+    "fixed: property=C11 2459004 AST-level constant folding used Python arithmetic: floor division, divisor-signed remainder, no 32-bit wrap of + - * ** <<",
+    "fixed: property=C11 968305c IR-level constant propagation did not wrap + - * ** << to 32 bits and took the remainder's sign from the divisor (division itself stays floor: listed finding)",
+    "fixed: property=C11 14bbd6c `int k = 7 + 3;` declared a signal and `(\"t\", 5 * 2 - 9)` / `(\"t\", k)` produced 0: int-typed folds were returned as constant signals",
+    "fixed: property=C16 b2d189c a Memory declared in a loop body (or in a function called twice, C15) was one shared cell: the memory id was derived from the declared name only",
     "fixed: property=C01 7701d37 a comparison with an integer literal on the left (`3 < a`) was emitted as `signal-0 < a`",
 ]
 
@@ -97,6 +101,28 @@ add("C10", K1, K1_WHAT + " (either build)", "K1",
           ["sig", "x", ["p", ["s", ["c", ">=", ["v", "a"], ["n", 4]], ["v", "b"]], "signal-stack-size"]],
           ["sig", "w", ["p", ["s", ["v", "flag"], ["v", "b"]], "steam"]]],
          "C01:cond_value", nval=6, edges={"a": [3, 4, 5]}))
+
+
+# ---- C11
+add("C11", "C11-ir-level-division-floors",
+    "IR-level constant propagation folds `/` with Python floor division: a constant behind a projection divided "
+    "with operands of different sign and a non-zero remainder (`((\"a\", 7) | \"b\") / (-2)`) is folded to -4 while the "
+    "arithmetic combinator computes -3 (optimised builds only; pinned by test_optimizer.py `_fold_arithmetic('/', -10, 3) == -4`)",
+    "ConstantPropagationOptimizer._fold_arithmetic('/') uses left // right; explained exactly by the reference "
+    "semantics with floor division applied to IR-level constant folds (defect model ir_floor_div)",
+    dict(case([["input", "a", "water", -64],
+               ["sig", "x", ["p", ["b", "+", ["v", "a"], ["b", "/", ["p", ["t", "explosives", ["n", 2147483647]], "signal-shuffle"], ["n", -2]]], "raw-fish"]]],
+              "ir_level_folding", nval=3), optimize=True))
+
+
+# ---- C16
+add("C16", K1, K1_WHAT, "K1",
+    case([["input", "x", "signal-liquid", -1],
+          ["for", "i", ["range", 4, 8, None],
+           [["sig", "kv", ["t", "signal-right-parenthesis", ["b", "*", ["v", "i"], ["n", 4]]]],
+            ["place", "lamp", "small-lamp", ["b", "*", ["v", "i"], ["n", 2]], ["n", 20], None],
+            ["set", "lamp", "enable", ["c", ">", ["b", "+", ["v", "x"], ["v", "kv"]], ["n", 17]]]]]],
+         "body_literal_nest1", nval=2))
 
 
 def main():
